@@ -3,7 +3,8 @@
 // Case format (line oriented, this is the replay file):
 //   tree <type 0=BST 1=RB 2=AVL> <cmp 0=natural 1=reversed 2=mod> <ctor 0=new 1=with_data 2=full>
 //        <notif bit0=key notifier bit1=value notifier bit2=no comparator data bit3=key 0 is the NULL pointer
-//               bit4=the values of keys k with k % 3 == 1 are NULL pointers (a tree used as a set; only without a value notifier)> <universe>
+//               bit4=the values of keys k with k % 3 == 1 are NULL pointers (a tree used as a set; only without a value notifier)
+//               bit5=the comparator returns results of any magnitude (difference style: only the sign carries meaning)> <universe>
 //   i <k>            insert fresh key object + fresh value object for key k
 //   I <k>            insert a fresh key object for key k together with the value object that is stored for k right now (a value
 //                    inserted a second time: the notifier is owed one call for the insertion that ends here); like i if k is absent
@@ -95,6 +96,7 @@ long g_cmp_calls = 0;
 // notif bit 8: key 0 of the universe is represented by the NULL pointer (a legal key: the comparator decides what it means); its
 // "object id" for the destroy log is kept here while it is stored
 bool g_nullkey = false; int g_null_kid = -1;
+bool g_cmp_magnitude = false;   // notif bit 32: "negative / zero / positive", like strcmp or a - b, not -1 / 0 / 1
 
 int order_cmp(int mode, int m, int a, int b) {
   switch (mode) {
@@ -117,7 +119,9 @@ int cmp_objs(const void *a, const void *b) {
   }
   int kx = x ? x->key : 0, ky = y ? y->key : 0;
   if (g_trace) g_trace->push_back(ky);
-  return order_cmp(g_ctx.mode, g_ctx.m, kx, ky);
+  int r = order_cmp(g_ctx.mode, g_ctx.m, kx, ky);
+  if (g_cmp_magnitude) { int d = kx > ky ? kx - ky : ky - kx; r *= 1 + (d % 5) * 1009 + (d > 40 ? 1000000 : 0); }
+  return r;
 }
 pint cmp2(pconstpointer a, pconstpointer b) { return cmp_objs(a, b); }
 pint cmp3(pconstpointer a, pconstpointer b, ppointer data) {
@@ -554,6 +558,7 @@ struct Runner {
     g_ctx.mode = cs.cmp; g_ctx.m = 7; g_ctx.tag = 0;
     g_cmp_error.clear(); g_destroy_error.clear(); g_log.clear(); g_trace = nullptr;
     g_nullkey = (cs.notif & 8) != 0; g_null_kid = -1;
+    g_cmp_magnitude = (cs.notif & 32) != 0; if (g_cmp_magnitude) vl::stats().klass("comparator_with_results_of_any_magnitude");
     if (!g_vtable_set) { PMemVTable vt; vt.f_malloc = ft_malloc; vt.f_realloc = ft_realloc; vt.f_free = ft_free; g_vtable_set = p_mem_set_vtable(&vt) == TRUE; }
     g_free_on_destroy = (prop == "C14");
     PTreeType tt = cs.type == 0 ? P_TREE_TYPE_BINARY : cs.type == 1 ? P_TREE_TYPE_RB : P_TREE_TYPE_AVL;
@@ -702,7 +707,7 @@ rc::Gen<Op> genOp(int U, bool shapes) {
 
 rc::Gen<Case> genCase(const string &prop) {
   using namespace rc;
-  return gen::mapcat(gen::tuple(rng(0, 3), rng(0, 3), gen::weightedElement<int>({{2, 0}, {2, 1}, {6, 2}}), rng(0, 32),
+  return gen::mapcat(gen::tuple(rng(0, 3), rng(0, 3), gen::weightedElement<int>({{2, 0}, {2, 1}, {6, 2}}), rng(0, 64),
                                 gen::weightedElement<int>({{3, 3}, {4, 8}, {4, 64}, {2, 5000}})),
                      [prop](const std::tuple<int, int, int, int, int> &t) {
                        Case base;
@@ -787,6 +792,7 @@ void exhaustive_seqs(const string &prop, int maxlen, long shard, long nshards) {
         if (g_failed) return;
         if (prop == "C14") { c.notif = 11; exec_and_record("exh_seq", c, prop, false); if (g_failed) return; }   // the same with key 0 = the NULL pointer
         if (prop == "C12") { c.notif = 17; exec_and_record("exh_seq", c, prop, false); if (g_failed) return; }   // the same with key 1 carrying a NULL value
+        if (prop != "C14") { c.notif = 35; exec_and_record("exh_seq", c, prop, false); if (g_failed) return; }   // the same with a difference-style comparator
       }
     }
   }
@@ -847,7 +853,7 @@ extern "C" int LLVMFuzzerTestOneInput(const uint8_t *data, size_t size) {
   FuzzedDataProvider fdp(data, size);
   static const std::string prop = vl::env("VERIF_PROP", "C12");
   Case c;
-  c.type = fdp.ConsumeIntegralInRange<int>(0, 2); c.cmp = fdp.ConsumeIntegralInRange<int>(0, 2); c.ctor = fdp.ConsumeIntegralInRange<int>(0, 2); c.notif = fdp.ConsumeIntegralInRange<int>(0, 31);
+  c.type = fdp.ConsumeIntegralInRange<int>(0, 2); c.cmp = fdp.ConsumeIntegralInRange<int>(0, 2); c.ctor = fdp.ConsumeIntegralInRange<int>(0, 2); c.notif = fdp.ConsumeIntegralInRange<int>(0, 63);
   static const int us[] = {3, 8, 64, 5000}; c.universe = us[fdp.ConsumeIntegralInRange<int>(0, 3)];
   if (prop == "C13" && c.type == 0) c.type = 1; if (prop == "C14") c.ctor = 2;
   while (fdp.remaining_bytes() > 0 && c.ops.size() < 400) {
